@@ -26,6 +26,8 @@ static const char* err_name(Error e, std::string& tmp) {
     case Error::kInvalidOperandSize: return "invalid_size";
     case Error::kInvalidArgument: return "invalid_arg";
     case Error::kInvalidInstruction: return "invalid_inst";
+    case Error::kInvalidAddress: return "invalid_addr";
+    case Error::kInvalidAddress64Bit: return "invalid_addr64";
     case Error::kInvalidRelocEntry: return "invalid_reloc";
     case Error::kRelocOffsetOutOfRange: return "reloc_range";
     case Error::kExpressionLabelNotBound: return "expr_unbound";
@@ -88,6 +90,30 @@ static Error do_ref(Prog& p, const std::vector<std::string>& t, long& label_out)
       return a.mov(m, Imm(int64_t(num(5))));
     }
     if (ins == "addmi8") { label_out = num(2); return a.add(x86::dword_ptr(mk_label(num(2)), int32_t(num(3))), Imm(int64_t(num(4)))); }
+    // absolute memory operands (C04): R abs<op> ... <addr> <hint 0 default|1 rel|2 abs>
+    if (ins.compare(0, 3, "abs") == 0) {
+      auto M = [&](size_t addr_idx, uint32_t size) {
+        x86::Mem m = x86::ptr(uint64_t(std::stoull(t.at(addr_idx))), size);
+        long h = long(num(addr_idx + 1));
+        if (h == 1) m.set_addr_rel(); else if (h == 2) m.set_addr_abs();
+        return m;
+      };
+      auto R = [&](long r, long size) -> x86::Gp {
+        uint32_t id = uint32_t(r) & (p.arch == Arch::kX64 ? 15u : 7u);
+        if (size == 8 && p.arch == Arch::kX64) return x86::Gp(x86::gpq(id));
+        if (size == 2) return x86::Gp(x86::gpw(id));
+        if (size == 1) return x86::Gp(x86::gpb_lo(p.arch == Arch::kX64 ? id : (id & 3u)));
+        return x86::Gp(x86::gpd(id));
+      };
+      if (ins == "absload")  return a.mov(R(num(2), num(3)), M(4, uint32_t(num(3))));          // R absload <reg> <size> <addr> <hint>
+      if (ins == "absstore") return a.mov(M(4, uint32_t(num(3))), R(num(2), num(3)));          // R absstore <reg> <size> <addr> <hint>
+      if (ins == "abslea")   return a.lea(R(num(2), num(3)), M(4, 0));                         // R abslea <reg> <size 4|8> <addr> <hint>
+      if (ins == "absmi")    return a.mov(M(4, uint32_t(num(2))), Imm(int64_t(num(3))));       // R absmi <size> <imm> <addr> <hint>
+      if (ins == "absaddi8") return a.add(M(4, uint32_t(num(2))), Imm(int64_t(num(3))));       // R absaddi8 <size 2|4|8> <imm8> <addr> <hint>
+      if (ins == "abstesti") return a.test(M(4, uint32_t(num(2))), Imm(int64_t(num(3))));      // R abstesti <size> <imm> <addr> <hint>
+      if (ins == "absimuli") return a.imul(R(num(2), 4), M(4, 4), Imm(int64_t(num(3))));       // R absimuli <reg> <imm> <addr> <hint>
+      return Error::kInvalidArgument;
+    }
     // absolute targets (C04)
     if (ins == "calli")  return a.call(Imm(int64_t(std::stoull(t.at(2)))));
     if (ins == "jmpi")   return a.jmp(Imm(int64_t(std::stoull(t.at(2)))));
